@@ -122,7 +122,7 @@ def parse_output(name, out, rc, timed_out, wall):
 
 
 PLAYBACK_RE = re.compile(
-    r"/// Check for `(\w+)`: \"([^\n]*)\"\n\n#\[test\]\nfn (\w+)\(\) \{\n(.*?)\n\}\n```", re.S)
+    r"/// Check for `(\w+)`: \"([^\n]*)\"\n(?:///[^\n]*\n)*\n#\[test\]\nfn (\w+)\(\) \{\n(.*?)\n\}\n```", re.S)
 
 
 def parse_playback(out):
